@@ -134,6 +134,7 @@ func yamlKeyOrderAt(b []byte, path []any) ([]string, error) {
 func init() {
 	props["C08"] = func(rng *sx.Rng, thorough bool) {
 		c08collidingKeys()
+		c08sharedMerges()
 		n := 400
 		if thorough {
 			n = 8000
@@ -540,4 +541,36 @@ func c08collidingKeys() {
 			stat("C08", "colliding-keys")
 		}
 	}
+}
+
+// c08sharedMerges: an anchored mapping that itself holds alias values, merged into (or referenced from) several
+// order-keeping places: each place gets all of it, merged keys where the merge key stands, in the source's order
+func c08sharedMerges() {
+	text := "a: &a {k2: v, k1: w}\nl: &l [x, y]\nc: &c {zeta: *a, alpha: 1, list: *l}\nenv:\n  Z_FIRST: \"1\"\n  A_LAST: \"2\"\nsteps:\n- command: c\n  agents:\n    before: b\n    <<: *c\n    after: a\n- mystery:\n    <<: *c\n    own: 1\n  again: *c\ntop:\n  <<: *c\n"
+	c := sx.L(sx.A("shared-merges"), sx.A(text))
+	noteCase("C08", text)
+	p, err := pipeline.Parse(strings.NewReader(text))
+	if err != nil && !warning.Is(err) {
+		oracleFail("C08", "parse-error", c, "a legal document with a shared anchored mapping is rejected: "+err.Error())
+		return
+	}
+	jb, _ := json.Marshal(p)
+	for _, ps := range []struct {
+		path []any
+		want []string
+	}{
+		{[]any{"steps", 0, "agents"}, []string{"before", "zeta", "alpha", "list", "after"}},
+		{[]any{"steps", 0, "agents", "zeta"}, []string{"k2", "k1"}},
+		{[]any{"steps", 1, "mystery"}, []string{"zeta", "alpha", "list", "own"}},
+		{[]any{"steps", 1, "again"}, []string{"zeta", "alpha", "list"}},
+		{[]any{"top"}, []string{"zeta", "alpha", "list"}},
+		{[]any{"c", "zeta"}, []string{"k2", "k1"}},
+	} {
+		got, gerr := jsonKeyOrderAt(jb, ps.path)
+		if gerr != nil || fmt.Sprint(got) != fmt.Sprint(ps.want) {
+			oracleFail("C08", "order-merge", c, fmt.Sprintf("at %v the members are %q (%v), want %q; output %s", ps.path, got, gerr, ps.want, jb))
+			return
+		}
+	}
+	stat("C08", "shared-merges")
 }
